@@ -8,6 +8,8 @@ from fractions import Fraction as Fr
 import numpy as np
 
 from .. import engine, refmodel as rm
+from .. import histories
+from ..histories import t_callhist        # worker task of the history harness (mc/histories.py)
 
 PID = 'C16'
 MOD = 'mc.props.c16'
@@ -311,6 +313,8 @@ def chk_adc_bad(case, acc, seed):
 DISPATCH = {'collect': chk_collect, 'bayer': chk_bayer, 'adc': chk_adc, 'adcmono': chk_adc_monotone, 'adcbad': chk_adc_bad}
 
 
+DISPATCH['histop'] = histories.chk_case
+
 def patterns(k, tier):
     pats = [''.join(p) for p in itertools.product('RGB', repeat=k * k)]
     if k == 3 and tier == 'quick':
@@ -368,6 +372,7 @@ def run(tier, seed, acc, procs=None):
             tasks.append(('t_bayer', {'tier': tier, 'seed': seed, 'k': k, 'shard': sh, 'nshard': ns}))
     acc.states += 1
     acc.transitions += len(tasks)
+    tasks += histories.tasks_for(PID, seed)        # pairwise call histories over the operations this property is anchored in
     engine.run_parallel(MOD, tasks, acc, procs)
     return {
         'rule': 'collect_charge: cubes of 1-3 slices, every unit impulse and a dense payload, scalar / vector / Spectrum efficiency in '
@@ -384,5 +389,8 @@ def run(tier, seed, acc, procs=None):
 
 
 def replay(case, acc):
+    if case.get('kind') == 'histop':
+        import os as _os
+        return histories.chk_case(case, acc, int(_os.environ.get('VERIF_SEED', '0') or 0))
     seed = int(os.environ.get('VERIF_SEED', '0') or 0)
     DISPATCH[case['kind']](case, acc, seed)
